@@ -490,6 +490,11 @@ func (fc *FuncCtx) callFunction(x *ssa.Call, fn *ssa.Function, args []Val, bindi
 		return Val{Ty: sig.Results(), Tuple: rs}
 	}
 
+	if ct == nil && ss == nil && x != nil && fc.canInline(fn) {
+		if v, ok := fc.inlineCall(x, fn, args, bindings, st, reach, site); ok {
+			return v
+		}
+	}
 	if ct == nil && ss == nil {
 		// arbitrary code: every heap component, every global and every local whose
 		// address is passed may be written; the results are arbitrary values of their types
